@@ -1,7 +1,6 @@
 (* Properties/C02.v — "CDB decoding is the exact inverse of CDB encoding", for every command class,
    all in-range assignments to all fields simultaneously, and all canonical CDB byte strings.
-   Stated for the class-level state left by constructing a command of that class (which is what the
-   static marshall_cdb / unmarshall_cdb consult); what other commands do to that state is C09. *)
+   marshall_cdb / unmarshall_cdb are classmethods over the class's own table (isolation from other commands is C09). *)
 From Coq Require Import String.
 From PS Require Import Base.Bytes Base.Result Model.Converter Model.Command Model.Ctor Model.InitCdb Model.CorrUtil.
 From PS Require Import Proofs.Codec Proofs.Layout Proofs.CtorSound Proofs.CdbSpec.
@@ -26,41 +25,39 @@ Theorem C02_decode_inverts_encode : forall key c sp,
   forall ext op G pos kw G' cm,
     init_cdb (op_value op) = Ok (sp_len sp) ->
     run_ctor ext op c init_cdb G pos kw = (G', Ok cm) ->
-    exists d r, cdb cm = Some r /\ g_bits G' = c_bits c /\ g_len G' = sp_len sp /\
+    exists d r, cdb cm = Some r /\
       (all_ints d = true -> valid_dict (sp_len sp) (c_bits c) (ints d) = true ->
-         marshall_cdb G' (ints d) = Ok r /\
-         forall k f, In (k, f) (g_bits G') ->
+         encode_dict (ints d) (c_bits c) (zeros (sp_len sp)) = Ok r /\
+         forall k f, In (k, f) (c_bits c) ->
            (forall v, In (k, v) (ints d) -> decode1 r f = Ok v) /\
            (~ In k (map fst (ints d)) -> decode1 r f = decode1 (zeros (sp_len sp)) f)).
 Proof.
   intros key c sp Hin Hsp ext op G pos kw G' cm Hlen Hrun.
   destruct (C01_wire_format key c sp Hin Hsp ext op G pos kw G' cm Hlen Hrun) as (ρ0 & d & r & _ & Hcdb & HG & Hrest).
-  exists d, r. subst G'. cbn [g_bits g_len]. repeat split; try assumption.
-  - destruct (Hrest H H0) as (_ & _ & E & _). exact E.
-  - intros v Hv. destruct (Hrest H H0) as (_ & _ & E & _).
-    destruct (decode_encode_field (sp_len sp) (c_bits c) (ints d) (zeros (sp_len sp)) k f
-                (C02_tables_well_formed key c sp Hin Hsp) H0 (zeros_length _) (bytes_ok_zeros _) H1)
-      as (r2 & E2 & _ & _ & Hdec & _).
-    rewrite E in E2. inversion E2; subst r2. apply Hdec; [assumption|apply ba_to_int_zeros].
-  - intros Hk. destruct (Hrest H H0) as (_ & _ & E & _).
-    destruct (decode_encode_field (sp_len sp) (c_bits c) (ints d) (zeros (sp_len sp)) k f
-                (C02_tables_well_formed key c sp Hin Hsp) H0 (zeros_length _) (bytes_ok_zeros _) H1)
-      as (r2 & E2 & _ & _ & _ & Hother).
-    rewrite E in E2. inversion E2; subst r2. now apply Hother.
+  exists d, r. split; [assumption|]. intros H H0. destruct (Hrest H H0) as (_ & _ & E & _). split; [exact E|].
+  intros k f H1.
+  destruct (decode_encode_field (sp_len sp) (c_bits c) (ints d) (zeros (sp_len sp)) k f
+              (C02_tables_well_formed key c sp Hin Hsp) H0 (zeros_length _) (bytes_ok_zeros _) H1)
+    as (r2 & E2 & _ & _ & Hdec & Hother).
+  rewrite E in E2. inversion E2; subst r2. split.
+  - intros v Hv. apply Hdec; [assumption|apply ba_to_int_zeros].
+  - exact Hother.
 Qed.
 
 (* re-encoding a decoded CDB reproduces the original bytes, for every CDB of the right length whose
-   undefined bits are zero *)
+   undefined bits are zero (K.marshall_cdb takes the length from the operation code it finds in the dictionary) *)
 Theorem C02_encode_inverts_decode : forall key c sp,
   In (key, c) all_ctors -> lookup key cdb_specs = Some sp ->
-  forall G b, g_bits G = c_bits c -> g_len G = sp_len sp ->
-    length b = sp_len sp -> bytes_ok b ->
+  forall b, length b = sp_len sp -> bytes_ok b ->
     (forall j, (forall k f g, In (k, f) (c_bits c) -> geom_of (sp_len sp) f = Some g -> in_field g j = false) ->
                N.testbit (ba_to_int b) j = false) ->
-    exists d, unmarshall_cdb G b = Ok d /\ marshall_cdb G d = Ok b.
+    exists d, unmarshall_cdb c b = Ok d /\ encode_dict d (c_bits c) (zeros (sp_len sp)) = Ok b /\
+      (forall v, lookup "opcode" d = Some (VI v) -> init_cdb v = Ok (sp_len sp) -> marshall_cdb init_cdb c d = Ok b).
 Proof.
-  intros key c sp Hin Hsp G b HG1 HG2 Hl Hb Hz. unfold unmarshall_cdb, marshall_cdb. rewrite HG1, HG2.
-  apply encode_decode; try assumption. eapply C02_tables_well_formed; eassumption.
+  intros key c sp Hin Hsp b Hl Hb Hz. unfold unmarshall_cdb.
+  destruct (encode_decode (sp_len sp) (c_bits c) b (C02_tables_well_formed key c sp Hin Hsp) Hl Hb Hz) as (d & D & E).
+  exists d. split; [assumption|]. split; [assumption|].
+  intros v Hv Hi. unfold marshall_cdb. now rewrite Hv, Hi.
 Qed.
 
 (* changing one field's value changes only that field's decoded value *)
